@@ -63,4 +63,44 @@ def run(ck):
     ci = facts.fn("comm_init_opened")
     flci = ck.flow(ci, markers={"open": ev_call("fd_open")})
     ck.require_passed("D4.created-registered", flci, ev_exit(), "open", "return of comm_init_opened")
+    ck.rule("D5 IdleConnList (the idle server-connection array that pop/close/timeout handlers index and dereference): push() grows the array only with "
+            "size_ == capacity_, copies *every* live entry -- the copy loop runs index = 0; index < size_ (exactly size_, no arithmetic on the bound); ++index and stores "
+            "theList_[index] = oldList[index] -- stores the new connection at theList_[size_] and then increments size_ exactly once; an entry left nil below size_ "
+            "is dereferenced by findIndexOf() when an older idle connection closes")
+    pc = ck.facts(["src/pconn.cc"], whole=False)
+    ph = pc.fn("IdleConnList::push")
+    SZ, CAP, LST = "IdleConnList::size_", "IdleConnList::capacity_", "IdleConnList::theList_"
+    loops = [b for b in ph.blocks.values() if b.get("term") and b["term"].get("k") == "ForStmt" and b["term"].get("c") is not None]
+    ck.need(len(loops) == 1, "C08: IdleConnList::push no longer has exactly one copy loop")
+    cond = E.strip(loops[0]["term"]["c"])
+    lhs, rhs = E.strip(cond.get("l") or {}), E.strip(cond.get("r") or {})
+    if cond.get("op") == "<" and lhs.get("k") == "ref" and lhs.get("dk") == "local" and E.m_is_mem(SZ)(rhs):
+        ck.ok("D5.grow-copies-all", ph.where(loops[0]["term"]["l"]), "copy loop bound is index < size_")
+        idx = lhs["d"]
+    else:
+        ck.violation("D5.grow-copies-all", "D5|IdleConnList::push|copy-bound", ph.where(loops[0]["term"]["l"]),
+                     "the copy loop of IdleConnList::push runs while %s, not while index < size_: live entries are dropped (left nil) when the array grows" % E.key(cond))
+        idx = lhs.get("d") if lhs.get("k") == "ref" else None
+    pfl = ck.flow(ph)
+    copies = [st for st in pfl.sites if st.ev.get("e") == "call" and E.strip(st.ev["x"]).get("f", "").endswith("operator=") and E.strip(E.strip(st.ev["x"]).get("o") or {}).get("k") == "idx"
+              and E.m_is_mem(LST)(E.strip(E.strip(st.ev["x"])["o"]).get("b"))]
+    ck.need(len(copies) == 2, "C08: expected the grow copy and the append store into theList_ in IdleConnList::push, found %d" % len(copies))
+    for st in copies:
+        x = E.strip(st.ev["x"])
+        at = E.strip(E.strip(x["o"])["i"])
+        src = E.strip(x["a"][0])
+        if src.get("k") == "idx":       # the grow copy
+            good = idx and E.m_is_ref(idx)(at) and E.m_is_ref(idx)(src.get("i"))
+            (ck.ok if good else (lambda r, w, t: ck.violation(r, "D5|IdleConnList::push|copy-shape", w, t)))(
+                "D5.grow-copies-all", st.where(), "theList_[index] = oldList[index]" if good else "the grow copy is %s (index mismatch)" % E.key(x)[:100])
+        else:                               # the append
+            good = E.m_is_mem(SZ)(at)
+            (ck.ok if good else (lambda r, w, t: ck.violation(r, "D5|IdleConnList::push|append-slot", w, t)))(
+                "D5.append-at-size", st.where(), "the new idle connection is stored at theList_[size_]" if good else "the new idle connection is stored at theList_[%s]" % E.key(at))
+    ck.require_fact("D5.grow-only-when-full", pfl, lambda ev: ev.get("e") == "asg" and E.m_is_mem(CAP)(ev.get("lhs")), E.m_cmp("==", E.m_is_mem(SZ), E.m_is_mem(CAP)), True, "capacity_ <<= 1")
+    incs = [st for st in pfl.sites if st.ev.get("e") == "asg" and E.m_is_mem(SZ)(st.ev.get("lhs"))]
+    if len(incs) == 1 and incs[0].ev.get("op") == "++":
+        ck.ok("D5.append-at-size", incs[0].where(), "size_ is incremented once")
+    else:
+        ck.violation("D5.append-at-size", "D5|IdleConnList::push|size-update", ph.where(), "size_ is updated %d time(s) in push()" % len(incs))
     ck.assume("leak freedom over job lifetimes/abort histories and liveness are not decided; only the fd_table bookkeeping pairs and the close sequence")
